@@ -1653,7 +1653,11 @@ class bernoulli(base_quantizer.BaseQuantizer):  # pylint: disable=invalid-name
     return cls(**config)
 
   def get_config(self):
-    config = {"alpha": self.alpha}
+    config = {
+        "alpha": self.alpha,
+        "temperature": self.temperature,
+        "use_real_sigmoid": self.use_real_sigmoid,
+    }
     return config
 
 
